@@ -210,7 +210,7 @@ def install(ctx):
             if inspect.isfunction(fn) and fn.__module__ == trf.__name__:
                 _rebind(fn, _pure('K16', 'argument-mutated')(fn))
     for mn, names in (('CircuitCalculator.Network.loaders', ['load_network', 'to_complex']),
-                      ('CircuitCalculator.dump_load', ['serialize', 'dictify_all_complex_values']),
+                      ('CircuitCalculator.dump_load', ['serialize', 'dictify_all_complex_values', 'undictify_all_complex_values', 'undictify_complex_values', 'dictify_complex_values']),
                       ('CircuitCalculator.Circuit.dump_load', ['undictify_circuit', 'generate_component'])):
         m = loaded.get(mn)
         if m is None:
